@@ -22882,7 +22882,7 @@ pub mod verif_hooks {
 	use super::*;
 	use bitcoin::hashes::Hash;
 	/// Runs `f` on the funded channel `channel_id` with peer `counterparty` of a real manager.
-	pub fn with_funded_channel<
+	fn with_funded_channel<
 		M: chain::Watch<SP::EcdsaSigner>,
 		T: BroadcasterInterface,
 		ES: EntropySource,
@@ -22903,6 +22903,34 @@ pub mod verif_hooks {
 		let chan = peer_state.channel_by_id.get_mut(channel_id)?.as_funded_mut()?;
 		Some(f(chan))
 	}
+	/// `FundedChannel::build_closing_transaction` of a live channel of a real manager, see
+	/// `ln::channel::verif_hooks::closing_probe`.
+	pub fn closing_probe<
+		M: chain::Watch<SP::EcdsaSigner>,
+		T: BroadcasterInterface,
+		ES: EntropySource,
+		NS: NodeSigner,
+		SP: SignerProvider,
+		F: FeeEstimator,
+		R: Router,
+		MR: MessageRouter,
+		L: Logger,
+	>(
+		cm: &ChannelManager<M, T, ES, NS, SP, F, R, MR, L>, counterparty: &PublicKey,
+		channel_id: &ChannelId, value_to_self_msat: u64, holder_dust_limit_satoshis: u64,
+		proposed_total_fee_satoshis: u64, skip_remote_output: bool,
+	) -> Option<Result<(u64, u64, u64), ()>> {
+		with_funded_channel(cm, counterparty, channel_id, |chan| {
+			crate::ln::channel::verif_hooks::closing_probe(
+				chan,
+				value_to_self_msat,
+				holder_dust_limit_satoshis,
+				proposed_total_fee_satoshis,
+				skip_remote_output,
+			)
+		})
+	}
+
 	/// Calls the real (private) `ChannelManager::can_forward_htlc_should_intercept` on an HTLC /
 	/// next-hop pair built from plain integers.
 	pub fn can_forward_probe<
